@@ -243,6 +243,16 @@ def hand():
              catches=[catch("e1", [step("c1")]), catch("e2", [step("c2")])]),
         step("s2"),
     ])))
+    out.append(line("catch_two_irq", workflow("m", [
+        step("s1", acts=[act("a1")],
+             catches=[catch("e1", [step("c1", acts=[act("ca1")])]), catch("e2", [step("c2", acts=[act("ca2")])])]),
+        step("s2"),
+    ])))
+    out.append(line("catch_act_two_irq", workflow("m", [
+        step("s1", acts=[act("a1", catches=[catch("e1", [step("c1", acts=[act("ca1")])]),
+                                            catch(NIL, [step("c2")])])]),
+        step("s2", acts=[act("a2")]),
+    ])))
     out.append(line("catch_all_empty", workflow("m", [
         step("s1", acts=[act("a1", catches=[catch(NIL, [])])]),
         step("s2", acts=[act("a2")]),
@@ -409,8 +419,13 @@ def family_core(budget, opts, limit=None, seed=0):
     return [line(f"g{i}", w) for i, w in enumerate(ws)]
 
 
+SEQ_NAMES = {"two_acts", "catch_act", "catch_step_two", "catch_two_irq", "catch_act_two_irq",
+             "catch_all_empty", "cancel_chain", "no_uses", "bad_pack_caught", "else_empty"}
+
 FAMILIES = {
     "hand": lambda a: hand(),
+    # the hand-written models without parallel interrupt branches (cheap with a larger client budget)
+    "handseq": lambda a: [ln for ln in hand() if ln["name"] in SEQ_NAMES],
     "core6": lambda a: family_core(6, {"max_steps": 2, "depth": 1, "max_acts": 2}, a.get("limit"), a.get("seed", 0)),
     "core7": lambda a: family_core(7, {"max_steps": 2, "depth": 1, "max_acts": 2}, a.get("limit"), a.get("seed", 0)),
     "core8": lambda a: family_core(8, {"max_steps": 2, "depth": 1, "max_acts": 2, "branch_two_steps": True}, a.get("limit"), a.get("seed", 0)),
